@@ -4,6 +4,7 @@ package asyncprocessor
 import (
 	"context"
 
+	"github.com/bluenviron/gortsplib/v5/internal/verifyield"
 	"github.com/bluenviron/gortsplib/v5/pkg/ringbuffer"
 )
 
@@ -32,7 +33,9 @@ func (w *Processor) Initialize() {
 // Close closes the processor.
 func (w *Processor) Close() {
 	w.ctxCancel()
+	verifyield.Point("proc.Close.afterCancel")
 	w.buffer.Close()
+	verifyield.Point("proc.Close.afterRingClose")
 
 	if w.running {
 		<-w.done
@@ -58,6 +61,7 @@ func (w *Processor) runInner() {
 			return
 		}
 
+		verifyield.Point("proc.run.beforeCallback")
 		err := tmp.(func() error)()
 		if err != nil {
 			w.OnError(w.ctx, err)
